@@ -165,6 +165,11 @@ ROUNDTRIP_TREES = [
     {"build": ["d", {"app.bin": ["f", "a\r\nb\rc\n"], "sub": ["d", {"x.txt": ["f", "x\r\n"], "y": ["f", "\r"]}]}],
      "src": ["d", {"main.c": ["f", "int main;\r\n"]}], "top.txt": ["f", "t\n"]},
     {"build": ["d", {"only.lf": ["f", "a\nb\n"]}], "src": ["d", {"crlf.txt": ["f", "\r\n\r\n"]}], "top.txt": ["f", "\r"]},
+    # entries the DEFAULT exclude patterns (no exclude option given anywhere) leave out, inside a dir: artifact and below
+    # a plain path: they are not part of the recording, editing them changes no report
+    {"build": ["d", {"only.lf": ["f", "a\n"], "cache.pyc": ["f", "pyc"], "notes~": ["f", "bak"], "old.link": ["f", "{}"],
+                     ".git": ["d", {"config": ["f", "[core]"]}]}],
+     "src": ["d", {"main.c": ["f", "int main;\n"], "main.pyc": ["f", "pyc"]}], "top.txt": ["f", "t\n"]},
 ]
 
 
@@ -184,6 +189,13 @@ def roundtrip_stream(ctx):
                             md = rl.in_toto_run("rt", [], products, ["true"], use_dsse=dsse)
                             same = rl.in_toto_match_products(md.get_payload(), paths=products)
                             rec["untouched"] = [sorted(x) for x in same]
+                            if ti == 2:
+                                for ign in ("build/cache.pyc", "build/.git/config", "build/notes~", "src/main.pyc"):
+                                    with open(ign, "ab") as f:
+                                        f.write(b"changed")
+                                with open("build/new.pyc", "wb") as f:
+                                    f.write(b"new")
+                                rec["ignored_edited"] = [sorted(x) for x in rl.in_toto_match_products(md.get_payload(), paths=products)]
                             with open("build/app.bin" if ti == 0 else "build/only.lf", "ab") as f:
                                 f.write(b"!")
                             after = rl.in_toto_match_products(md.get_payload(), paths=products)
@@ -197,6 +209,9 @@ def roundtrip_stream(ctx):
                         rec["bad"] = "round trip raised " + rec["err"]
                     elif rec["untouched"] != [[], [], []]:
                         rec["bad"] = "a link recorded by in_toto_run does not match the untouched tree: %r" % (rec["untouched"],)
+                    elif rec.get("ignored_edited", [[], [], []]) != [[], [], []]:
+                        rec["bad"] = ("files left out by the default exclude patterns (*.pyc, *~, .git, no exclude option given) were "
+                                      "edited / added: the report is %r, expected nothing" % (rec["ignored_edited"],))
                     elif rec["edited"] != [[], [], [want]]:
                         rec["bad"] = "after editing %s the report is %r, expected differ=[%s] only" % (name, rec["edited"], want)
                     out.append(rec)
